@@ -2,9 +2,9 @@ package main
 
 import (
 	"archive/tar"
-	"path"
 	"encoding/base64"
 	"fmt"
+	"path"
 	"sort"
 	"strings"
 
@@ -27,32 +27,32 @@ type tcase struct {
 	bopts    blob.Opts
 	built    *blob.Built
 
-	paths    []string // all model paths (sorted), "" = root
-	dirs     []string
-	files    []string // regular files incl. hardlinked names
-	symlinks []string
-	rootEntry bool // the tar has an explicit root entry
+	paths         []string // all model paths (sorted), "" = root
+	dirs          []string
+	files         []string // regular files incl. hardlinked names
+	symlinks      []string
+	rootEntry     bool           // the tar has an explicit root entry
 	explicitCount map[string]int // clean dir path -> number of explicit dir entries in the tar
 }
 
 // envSpec is one environment (store + configuration + workload shape) of a case.
 type envSpec struct {
-	store       string
-	cfg         config.Config
-	desc        string
-	walkers     int
-	opsA, opsC  int  // operations per walker in the healthy phases
-	opsB        int  // operations per walker during the outage phase (0 = no outage phase)
-	personas    []string
-	multi400    bool // registry answers 400 to multi-range GETs (fetcher falls back to single-range mode)
-	redirect    bool // registry redirects blob GETs to the CDN host (valid token)
-	prefetchSize int64
+	store         string
+	cfg           config.Config
+	desc          string
+	walkers       int
+	opsA, opsC    int // operations per walker in the healthy phases
+	opsB          int // operations per walker during the outage phase (0 = no outage phase)
+	personas      []string
+	multi400      bool // registry answers 400 to multi-range GETs (fetcher falls back to single-range mode)
+	redirect      bool // registry redirects blob GETs to the CDN host (valid token)
+	prefetchSize  int64
 	prefetchEarly bool // start Prefetch before Verify (as fs.Mount does) instead of during the walk
-	evict       bool
-	adopt       bool // emulate the go-fuse bridge: add looked-up children to the parent inode
-	scenario    string // dedicated history scenario (replaces the node class in violation keys)
-	tiny        bool // registry chunk size of a few bytes: minimal workload, no Prefetch/BackgroundFetch
-	risky       bool // configuration known to be able to kill the process: run after the other environments
+	evict         bool
+	adopt         bool   // emulate the go-fuse bridge: add looked-up children to the parent inode
+	scenario      string // dedicated history scenario (replaces the node class in violation keys)
+	tiny          bool   // registry chunk size of a few bytes: minimal workload, no Prefetch/BackgroundFetch
+	risky         bool   // configuration known to be able to kill the process: run after the other environments
 }
 
 func genCase(r *vf.Run, stage uint64, idx int) *tcase {
